@@ -177,15 +177,7 @@ def error_propagates(fn, call_term):
         return False
     if flows_to_return(fn, dest):
         return True
-    edges = ok_edges(fn, dest["l"])
-    if not edges:
-        return False
-    for (swb, okt, errt) in edges:
-        reg = exclusive_region(fn, errt, okt)
-        rets = returns_in(fn, reg)
-        if rets and all(k == "err" for k, _ in rets):
-            return True
-    return False
+    return result_error_propagates(fn, dest["l"])
 
 
 def dest_used(fn, call_block):
@@ -239,3 +231,103 @@ def _mentions(rv, l):
             if p is not None and p["l"] == l:
                 return True
     return False
+
+
+def await_result(fn, call_block):
+    """For `call(..).await`: the local receiving the future's output (payload of Poll::Ready) -> (local, block) or None."""
+    t = fn.term(call_block)
+    d = t["dest"]
+    if "p" in d:
+        return None
+    vals, refs = value_aliases(fn, d["l"], through=(r"IntoFuture>::into_future$",))
+    pins = set()
+    for b in fn.blocks:
+        tt = b["t"]
+        if tt["k"] == "call" and is_callee(tt, r"Pin::<.*>::new_unchecked$", r"Pin::<.*>::new$") and tt["args"]:
+            a = op_place(tt["args"][0])
+            if a is not None and "p" not in a and a["l"] in refs and "p" not in tt["dest"]:
+                pins.add(tt["dest"]["l"])
+    polls = set()
+    for b in fn.blocks:
+        tt = b["t"]
+        if tt["k"] == "call" and is_callee(tt, r"Future>::poll$") and tt["args"]:
+            a = op_place(tt["args"][0])
+            if a is not None and "p" not in a and a["l"] in pins and "p" not in tt["dest"]:
+                polls.add(tt["dest"]["l"])
+    for bi, b in enumerate(fn.blocks):
+        for st in b["st"]:
+            rv = st["rv"]
+            if rv["k"] == "use" and "p" not in st["lhs"]:
+                p = op_place(rv["a"])
+                if p is not None and p["l"] in polls and any(isinstance(e, dict) and e.get("dc") == "Ready" for e in p.get("p", [])):
+                    return st["lhs"]["l"], bi
+    return None
+
+
+def awaited_ok_edges(fn, call_block):
+    r = await_result(fn, call_block)
+    if r is None:
+        return []
+    return ok_edges(fn, r[0])
+
+
+def dominated_by_ok(fn, call_block, site_block, awaited=True):
+    """site_block is dominated by the Ok edge of the (awaited) Result produced by the call at call_block"""
+    edges = awaited_ok_edges(fn, call_block) if awaited else ok_edges(fn, fn.term(call_block)["dest"]["l"])
+    for (swb, okt, errt) in edges:
+        if fn.pred(okt) == [swb] and fn.dominates(okt, site_block):
+            return True
+    return False
+
+
+def awaited_error_propagates(fn, call_block):
+    r = await_result(fn, call_block)
+    if r is None:
+        return False
+    return result_error_propagates(fn, r[0])
+
+
+def _err_assign_block(fn, b):
+    for st in fn.blocks[b]["st"]:
+        if st["lhs"] == {"l": 0}:
+            rv = st["rv"]
+            if rv["k"] == "agg" and rv["n"] == "std::result::Result::Err":
+                return True
+    t = fn.term(b)
+    if t["k"] == "call" and t["dest"] == {"l": 0} and is_callee(t, r"FromResidual.*from_residual$"):
+        return True
+    return False
+
+
+def err_edge_propagates(fn, swb, okt, errt):
+    """every path from the Err edge reaches an assignment `_0 = Err(..)`/from_residual before it can rejoin the
+    Ok continuation or return."""
+    cont = {okt} | fn.reach([okt], avoid=[swb])
+    seen = set()
+    work = [errt]
+    found_err = False
+    while work:
+        b = work.pop()
+        if b in seen:
+            continue
+        seen.add(b)
+        if _err_assign_block(fn, b):
+            found_err = True
+            continue
+        if b in cont:
+            return False
+        if fn.term(b)["k"] == "return":
+            return False
+        for s2 in fn.succ(b):
+            if s2 not in seen:
+                work.append(s2)
+    return found_err
+
+
+def result_error_propagates(fn, local):
+    if flows_to_return(fn, {"l": local}, through=(r"Result::<.*>::map_err", )):
+        return True
+    edges = ok_edges(fn, local)
+    if not edges:
+        return False
+    return all(err_edge_propagates(fn, swb, okt, errt) for (swb, okt, errt) in edges)
